@@ -98,8 +98,8 @@ pub(crate) fn read_data_block_patch<T: Read + Seek>(mut buf: T) -> Option<Vec<u8
             compressed_length,
             decompressed_length,
         } => {
-            let compressed_length: usize =
-                ((compressed_length as usize + 143) & 0xFFFFFF80) - (block_header.size as usize);
+            let compressed_length: usize = ((compressed_length as usize + 143) & 0xFFFFFF80)
+                .checked_sub(block_header.size as usize)?;
 
             let mut compressed_data: Vec<u8> = vec![0; compressed_length];
             buf.read_exact(&mut compressed_data).ok()?;
@@ -117,10 +117,10 @@ pub(crate) fn read_data_block_patch<T: Read + Seek>(mut buf: T) -> Option<Vec<u8
             let mut local_data: Vec<u8> = vec![0; file_size as usize];
             buf.read_exact(&mut local_data).ok()?;
 
-            buf.seek(SeekFrom::Current(
-                (new_file_size - block_header.size as usize - file_size as usize) as i64,
-            ))
-            .ok()?;
+            let padding = new_file_size
+                .checked_sub(block_header.size as usize)?
+                .checked_sub(file_size as usize)?;
+            buf.seek(SeekFrom::Current(padding as i64)).ok()?;
 
             Some(local_data)
         }
